@@ -223,3 +223,106 @@ Theorem C09_unserialisable_reply_servfail_witness :
        = Ok (Some (u16_bytes (llen wire) ++ wire)).
 Proof. exact unserialisable_reply_servfail_witness. Qed.
 Print Assumptions C09_unserialisable_reply_servfail_witness.
+
+(* ====================================================================== *)
+(* the server composed with the local resolver, authoritative-only mode     *)
+(* (ties C09 to C01 / C02; lemmas: Server/ServerLocal.v)                    *)
+(* ====================================================================== *)
+From RV Require Import Resolver.LocalSpec Resolver.LocalProofs Server.ServerLocal.
+
+(* With `--authoritative-only` the resolver is only ever asked with is_recursive = false (RD && RA,
+   RA = false): two resolvers that agree there give the same reply to EVERY input, whatever they
+   would do when asked to recurse -- so ServerModel's dead-upstream recursive instance is the local
+   resolver here; the reply is a function of the zones and the cache READ function, and not even
+   of that for names inside authoritative zones (C01_cache_noninterference_local lifted to
+   replies); and RA = 0 on every reply to a standard query. *)
+Theorem C09_authoritative_only_never_recurses :
+  (forall (resolve resolve' : bool -> question -> res rerror resolved) bs,
+     (forall q, resolve false q = resolve' false q) ->
+     handle_raw_message true resolve bs = handle_raw_message true resolve' bs)
+  /\ (forall zs cget bs,
+        handle_raw_message true (resolve_dead_upstream zs cget) bs
+        = handle_raw_message true (fun _ => resolve_authoritative_only zs cget) bs)
+  /\ (forall zs c1 c2 bs, cache_agree_outside (in_auth_zone zs) c1 c2 ->
+        handle_raw_message true (fun _ => resolve_authoritative_only zs c1) bs
+        = handle_raw_message true (fun _ => resolve_authoritative_only zs c2) bs)
+  /\ (forall zs cget bs m r, query_of bs m -> h_opcode (m_header m) = OPCODE_Standard ->
+        handle_raw_message true (fun _ => resolve_authoritative_only zs cget) bs = Ok (Some r) ->
+        h_ra (m_header r) = false).
+Proof.
+  split; [exact ao_never_recurses|]. split; [exact ao_dead_upstream_is_local|].
+  split; [exact ao_reply_cache_noninterference|exact ao_ra_clear].
+Qed.
+Print Assumptions C09_authoritative_only_never_recurses.
+
+(* A standard query with one question of known type and class about a name an authoritative zone
+   OWNS ([owned_by], Resolver/LocalSpec.v: the zone Zones::get selects, it has a SOA, the name is not
+   at/beneath one of its delegation points) is answered -- no premise that the resolver returns --
+   from that zone alone (C01_auth_zone_alone_local):
+   the zone has an Answer: AA = 1, NOERROR, the answer section is EXACTLY the zone's records for
+   that name and type (what they are is C02's subject), the authority section the zone's SOA;
+   the zone says NameError: AA = 1, RCODE 3, empty answer, the zone's SOA.
+   Whatever the cache holds; RA = 0, the id and the question echoed, no additional records. *)
+Theorem C09_owned_name_reply : forall zs cget bs m q z,
+  query_of bs m -> h_opcode (m_header m) = OPCODE_Standard -> m_questions m = [q] -> ~ must_refuse m ->
+  owned_by zs (q_name q) z ->
+  (forall rrs, zones_resolve zs (q_name q) (q_type q) = Some (z, Ok (ZAnswer rrs)) ->
+     exists r soa_rr,
+       handle_raw_message true (fun _ => resolve_authoritative_only zs cget) bs = Ok (Some r)
+       /\ zone_soa_rr z = Some soa_rr
+       /\ h_aa (m_header r) = true /\ h_rcode (m_header r) = RCODE_NoError
+       /\ m_answers r = rrs /\ m_authority r = [soa_rr] /\ m_additional r = []
+       /\ h_ra (m_header r) = false /\ h_id (m_header r) = h_id (m_header m) /\ m_questions r = [q])
+  /\ (zones_resolve zs (q_name q) (q_type q) = Some (z, Ok ZNameError) ->
+     exists r soa_rr,
+       handle_raw_message true (fun _ => resolve_authoritative_only zs cget) bs = Ok (Some r)
+       /\ zone_soa_rr z = Some soa_rr
+       /\ h_aa (m_header r) = true /\ h_rcode (m_header r) = RCODE_NameError
+       /\ m_answers r = [] /\ m_authority r = [soa_rr] /\ m_additional r = []
+       /\ h_ra (m_header r) = false /\ h_id (m_header r) = h_id (m_header m) /\ m_questions r = [q]).
+Proof.
+  intros zs cget bs m q z Hq Ho Hqs Hnr Hown. split.
+  - intros rrs Hz. exact (owned_answer_reply zs cget bs m q z rrs Hq Ho Hqs Hnr Hown Hz).
+  - intro Hz. exact (owned_nxdomain_reply zs cget bs m q z Hq Ho Hqs Hnr Hown Hz).
+Qed.
+Print Assumptions C09_owned_name_reply.
+
+(* RCODE 3 leaves the server only on the word of an authoritative zone: for EVERY input (any
+   octets) answered with RCODE 3, the input is a standard query with exactly one question and the
+   zone selected for the question NAME has a SOA and returned NameError for that name and type
+   (C01_nxdomain_only_from_auth_zone_local); the reply has AA = 1, no answers and that zone's SOA.
+   Never through an alias (a CNAME to a missing target is NOERROR), never from the cache. *)
+Theorem C09_nxdomain_only_from_auth_zone : forall zs cget bs r,
+  handle_raw_message true (fun _ => resolve_authoritative_only zs cget) bs = Ok (Some r) ->
+  h_rcode (m_header r) = RCODE_NameError ->
+  exists m q z s,
+    query_of bs m /\ h_opcode (m_header m) = OPCODE_Standard /\ m_questions m = [q]
+    /\ zones_resolve zs (q_name q) (q_type q) = Some (z, Ok ZNameError) /\ zone_soa_rr z = Some s
+    /\ in_auth_zone zs (q_name q)
+    /\ h_aa (m_header r) = true /\ m_answers r = [] /\ m_authority r = [s].
+Proof. exact nxdomain_reply_only_from_auth_zone. Qed.
+Print Assumptions C09_nxdomain_only_from_auth_zone.
+
+(* the hypotheses are satisfiable, evaluated on the worked configuration of Resolver/LocalProofs.v
+   (zone e.c. with w.e.c. A 1; the cache holds w.e.c. A 9): the query "w.e.c. A" meets the
+   premises of C09_owned_name_reply and is answered AA / NOERROR with the zone's record and SOA;
+   "n.e.c. A" is answered AA / NXDOMAIN with the SOA *)
+Example C09_owned_name_example :
+  (query_of (SLExample.bytes_for LocalExample.n_wec) (SLExample.query_for LocalExample.n_wec)
+   /\ h_opcode (m_header (SLExample.query_for LocalExample.n_wec)) = OPCODE_Standard
+   /\ m_questions (SLExample.query_for LocalExample.n_wec) = [LocalExample.qa LocalExample.n_wec]
+   /\ ~ must_refuse (SLExample.query_for LocalExample.n_wec))
+  /\ owned_by LocalExample.ex_zones LocalExample.n_wec LocalExample.z_ec
+  /\ option_map (fun o => option_map (fun r => (outcome_of r, h_ra (m_header r), h_id (m_header r))) o)
+       (match handle_raw_message true (fun _ => resolve_authoritative_only LocalExample.ex_zones LocalExample.ex_cget)
+                (SLExample.bytes_for LocalExample.n_wec) with Ok o => Some o | _ => None end)
+     = Some (Some (([{| rr_name := LocalExample.n_wec; rr_type := RT_A; rr_class := RC_IN; rr_ttl := 300; rr_data := RD_A 1 |}],
+                    [LocalExample.soa_rr], true, RCODE_NoError), false, 7))
+  /\ option_map (fun o => option_map outcome_of o)
+       (match handle_raw_message true (fun _ => resolve_authoritative_only LocalExample.ex_zones LocalExample.ex_cget)
+                (SLExample.bytes_for SLExample.n_nec) with Ok o => Some o | _ => None end)
+     = Some (Some ([], [LocalExample.soa_rr], true, RCODE_NameError)).
+Proof.
+  split; [exact SLExample.ex_query_ok|]. split; [exact LocalExample.ex_owned|].
+  split; [exact SLExample.ex_owned_answer|exact SLExample.ex_owned_nxdomain].
+Qed.
